@@ -9,6 +9,7 @@ import (
 	"encoding/json"
 	"fmt"
 	"math/rand"
+	"os"
 	"regexp"
 	"sort"
 	"strings"
@@ -473,5 +474,15 @@ func (u *Universe) TLA() []byte {
 func ConstCfg(methods, spellings []string, maxSpell int, hdrCross bool, stacks []string, uiModes []bool) string {
 	return "CONSTANTS\n  Templates <- cTemplates\n  DocOps <- cDocOps\n  EmbOps <- cEmbOps\n  EmbOrder <- cEmbOrder\n" +
 		"  ParamVal <- cParamVal\n  ParamBk <- cParamBk\n  IntParams <- cIntParams\n  Tok <- cTok\n  Variant <- cVariant\n  EffectOf <- cEffectOf\n" +
-		fmt.Sprintf("  Methods = %s\n  Spellings = %s\n  MaxSpell = %d\n  Stacks = %s\n  HdrCross = %s\n  UiModes = %s\n", qset(methods), qset(spellings), maxSpell, qset(stacks), tlaBool(hdrCross), tlaBoolSet(uiModes))
+		fmt.Sprintf("  Methods = %s\n  Spellings = %s\n  MaxSpell = %d\n  Stacks = %s\n  HdrCross = %s\n  UiModes = %s\n  DropReadOnly = %s\n", qset(methods), qset(spellings), maxSpell, qset(stacks), tlaBool(hdrCross), tlaBoolSet(uiModes), dropReadOnly())
+}
+
+// dropReadOnly: VERIF_C18_DROPRO=<flavour,...> selects the named alternative of the spec in which
+// those flavours' constructors lose the read-only flag (never set in a normal run).
+func dropReadOnly() string {
+	v := os.Getenv("VERIF_C18_DROPRO")
+	if v == "" {
+		return "{}"
+	}
+	return qset(strings.Split(v, ","))
 }
